@@ -314,7 +314,7 @@ func c11Bucket(n int) string {
 
 func RunC11Batches(ctx *core.Ctx) {
 	ctx.SetRule("catalogue struct types x random rows (1..2100 rows, lists of 0..5 elements; one case in four: 1..6 rows with lists of 513..2500 elements, longer than the 1024-value buffer) x source kind {GenericBuffer (one page per column: reads fill the buffer), file row groups under a random configuration (reads end at the source's pages), two row-range views per file row group} -> WriteRowGroup into a writer with PageBufferSize(1), verbatim copy disabled; per column the values per output data page = batches of copyColumnValues; non-trivial = a repeated column with more than 1024 values")
-	per := ctx.Scale(2, 14)
+	per := ctx.Scale(2, 6)
 	var wg sync.WaitGroup
 	sem := make(chan struct{}, 16)
 	for ei, e := range gen.Catalog {
